@@ -17,7 +17,7 @@ import z3
 from . import values as Vm
 from .values import (V, KInt, KReal, KBool, KStr, KDyn, KNone, KFn, KSetInt, KRef, KList, KTuple,
                      KDict, IntV, RealV, BoolV, StrV, NONE, DynV, TupV, Unsupported, SpecError,
-                     DynS, fresh, fresh_name, merge, coerce, to_dyn, tuple_items, DictOps)
+                     DynS, fresh, fresh_name, merge, coerce, to_dyn, tuple_items, DictOps, ListOps)
 from .contracts import (REGISTRY, FIELDS, LIB_CLASSES, SPEC_FUNCS, SPEC_DEFS, GLOBALS, Contract, Clause)
 from .extract import Repo, FuncInfo, body_without_docstring
 
@@ -178,6 +178,7 @@ class Engine:
         self.ghost_spec_env: dict[str, V] = {}
         self.uf_cache: dict = {}
         self._named: dict = {}
+        self.binders: list = []
 
     # ------------------------------------------------------------------ utilities
     def site(self, kind):
@@ -185,16 +186,47 @@ class Engine:
         self.site_counters[kind] = n + 1
         return f'{kind}#{n}'
 
+    # ---- binders: while a quantifier / comprehension body is evaluated at a symbolic index, every
+    # fresh symbol is a Skolem function of the bound variables and every fact is universally closed.
+    def push_binder(self, vs, cond):
+        self.binders.append((list(vs), cond))
+
+    def pop_binder(self):
+        self.binders.pop()
+
+    def bound_vars(self):
+        return [v for vs, _ in self.binders for v in vs]
+
+    def close(self, f, path=None):
+        if not self.binders:
+            return f if path is None or z3.is_true(path) else z3.Implies(path, f)
+        conds = [c for _, c in self.binders if c is not None]
+        if path is not None and not z3.is_true(path):
+            conds.append(path)
+        body = z3.Implies(z3.And(*conds), f) if conds else f
+        return z3.ForAll(self.bound_vars(), body)
+
+    def fresh(self, kind, base='v') -> V:
+        return V(kind, self.fresh_term(kind.sort(), base))
+
+    def fresh_term(self, sort, base='t'):
+        if not self.binders:
+            return z3.Const(fresh_name(base), sort)
+        bv = self.bound_vars()
+        f = z3.Function(fresh_name(base), *[v.sort() for v in bv], sort)
+        return f(*bv)
+
     def fact(self, st: State | None, f):
-        if st is None:
-            self.facts.append(f)
-        else:
-            self.facts.append(z3.Implies(st.path, f) if not z3.is_true(st.path) else f)
+        self.facts.append(self.close(f, st.path if st is not None else None))
 
     def oblige(self, st: State, goal, name, kind='ensures', props=(), text=''):
         if st.dead:
             return
-        hyps = list(self.facts) + [st.path]
+        if self.binders:
+            hyps = list(self.facts)
+            goal = self.close(goal, st.path)
+        else:
+            hyps = list(self.facts) + [st.path]
         self.obligations.append(Obligation(
             name=f'{self.key}/{name}', hyps=hyps, goal=goal, kind=kind,
             props=tuple(props) or tuple(self.contract.props), text=text))
@@ -393,6 +425,10 @@ class Engine:
         for cl in c.requires:
             r = self.eval_spec(cl.node, st, st)
             self.facts.append(self.truth(r))
+        for cl in c.hints:
+            r = self.truth(self.eval_spec(cl.node, st, st))
+            self.oblige(st, r, f'hint:{cl.label}', kind='hint', text=cl.text, props=cl.props)
+            self.facts.append(r)
         self.pre_facts = list(self.facts)
         # covers: requires jointly satisfiable
         self.covers.append(('requires-satisfiable', list(self.facts), z3.BoolVal(True)))
@@ -434,6 +470,8 @@ class Engine:
         # ---- normal post-conditions
         if not res_state.dead:
             for cl in c.ensures:
+                if cl.bounded:
+                    continue      # decided by the bounded run-time check only (never counted as proved)
                 r = self.eval_spec(cl.node, res_state, self.init_state, result=res_val)
                 self.oblige(res_state, self.truth(r), f'ensures:{cl.label}', kind='ensures',
                             text=cl.text, props=cl.props)
@@ -532,7 +570,7 @@ class Engine:
                 continue
             r = z3.Int(fresh_name('r'))
             excl = [r != o for o in allowed.get(key, [])]
-            goal = z3.ForAll([r], z3.Implies(z3.And(r > 0, r < a0, *excl),
+            goal = Vm.forall([r], z3.Implies(z3.And(r > 0, r < a0, *excl),
                                              z3.Select(arr, r) == z3.Select(init, r)))
             self.oblige(st, goal, f'frame:{key}', kind='frame',
                         text=f'only {c.modifies} may be modified; field {key} of other objects unchanged')
@@ -735,7 +773,7 @@ class Engine:
         if v.meta == 'emptydict' and isinstance(kind, KDict):
             return V(kind, DictOps(kind).empty())
         if v.meta == 'empty' and isinstance(kind, KList):
-            return V(kind, z3.Empty(kind.sort()))
+            return V(kind, ListOps(kind).empty())
         return coerce(v, kind)
 
     def _is_global_name(self, name):
@@ -748,8 +786,9 @@ class Engine:
                 raise Unsupported('tuple unpack arity')
             return items
         if isinstance(v.kind, KList):
-            self.require(st, z3.Length(v.term) == n, 'ValueError', 'unpack')
-            return [V(v.kind.elem, v.term[i]) for i in range(n)]
+            lo = ListOps(v.kind)
+            self.require(st, lo.len(v.term) == n, 'ValueError', 'unpack')
+            return [V(v.kind.elem, lo.at(v.term, z3.IntVal(i))) for i in range(n)]
         raise Unsupported(f'unpack of {v.kind!r}')
 
     def setattr(self, obj: V, attr, v: V, st: State):
@@ -800,13 +839,12 @@ class Engine:
             return V(kd, ops.set(cont.term, kk.term, vv.term))
         if isinstance(kd, KList):
             i = self.as_int(k, st)
-            n = z3.Length(cont.term)
-            i2 = z3.If(i < 0, i + n, i)
+            lo = ListOps(kd)
+            n = lo.len(cont.term)
+            i2 = self.norm_index(i, n)
             self.require(st, z3.And(i2 >= 0, i2 < n), 'IndexError', 'list store')
             vv = coerce(v, kd.elem)
-            new = z3.Concat(z3.SubSeq(cont.term, 0, i2), z3.Unit(vv.term),
-                            z3.SubSeq(cont.term, i2 + 1, n - i2 - 1))
-            return V(kd, new)
+            return V(kd, lo.mk(n, z3.Store(lo.arr(cont.term), i2, vv.term)))
         raise Unsupported(f'item store into {kd!r}')
 
     # ---- globals (module-level mutable state such as tracing._func_traces)
@@ -1072,7 +1110,8 @@ class Engine:
         """Return (length term, at(i) -> V) for an iterable value."""
         k = it.kind
         if isinstance(k, KList):
-            return z3.Length(it.term), (lambda i: self.wf(st, V(k.elem, it.term[i])))
+            lo = ListOps(k)
+            return lo.len(it.term), (lambda i: self.wf(st, V(k.elem, lo.at(it.term, i))))
         if isinstance(k, KTuple):
             items = tuple_items(it)
             kinds = set(map(repr, k.items))
@@ -1347,13 +1386,10 @@ class Engine:
     def make_list(self, items, elem_kind=None):
         if not items:
             k = elem_kind or KDyn
-            return V(KList(k), z3.Empty(z3.SeqSort(k.sort())), meta='empty')
+            return V(KList(k), ListOps(KList(k)).empty(), meta='empty')
         k = elem_kind or self.common_kind([i.kind for i in items])
         items = [coerce(i, k) for i in items]
-        t = z3.Unit(items[0].term)
-        for i in items[1:]:
-            t = z3.Concat(t, z3.Unit(i.term))
-        return V(KList(k), t)
+        return V(KList(k), ListOps(KList(k)).from_items([i.term for i in items]))
 
     def common_kind(self, kinds):
         ks = set(kinds)
@@ -1410,10 +1446,11 @@ class Engine:
             return self.wf(st, V(kd.val, ops.get(base.term, kk.term)))
         if isinstance(kd, KList):
             i = self.as_int(k, st)
-            n = z3.Length(base.term)
-            i2 = z3.If(i < 0, i + n, i)
+            lo = ListOps(kd)
+            n = lo.len(base.term)
+            i2 = self.norm_index(i, n)
             self.require(st, z3.And(i2 >= 0, i2 < n), 'IndexError', 'list index')
-            return self.wf(st, V(kd.elem, base.term[i2]))
+            return self.wf(st, V(kd.elem, lo.at(base.term, i2)))
         if isinstance(kd, KTuple):
             items = tuple_items(base)
             ci = self.concrete_int(self.as_int(k, st))
@@ -1431,9 +1468,16 @@ class Engine:
             return b
         raise Unsupported(f'subscript of {kd!r}')
 
+    def norm_index(self, i, n):
+        si = z3.simplify(i)
+        if self.spec_mode or (z3.is_int_value(si) and si.as_long() >= 0):
+            return i      # contracts index from the front only (negative indices are not used in specs)
+        return z3.If(i < 0, i + n, i)
+
     def slice(self, base: V, lo, hi, st):
         if isinstance(base.kind, KList):
-            n = z3.Length(base.term)
+            lops = ListOps(base.kind)
+            n = lops.len(base.term)
 
             def norm(v, default):
                 if v is None or v.kind == KNone:
@@ -1444,7 +1488,7 @@ class Engine:
             a = norm(lo, z3.IntVal(0))
             b = norm(hi, n)
             ln = z3.If(b > a, b - a, 0)
-            return V(base.kind, z3.SubSeq(base.term, a, ln))
+            return V(base.kind, lops.slice(base.term, a, ln))
         b = self.B.slice(self, st, base, lo, hi)
         if b is not None:
             return b
@@ -1489,7 +1533,7 @@ class Engine:
         if isinstance(k, KRef):
             return v.term != 0
         if isinstance(k, KList):
-            return z3.Length(v.term) > 0
+            return ListOps(k).len(v.term) > 0
         if isinstance(k, KDict):
             return DictOps(k).n(v.term) > 0
         if isinstance(k, KTuple):
@@ -1546,24 +1590,25 @@ class Engine:
                 b = coerce(b, a.kind)
             if a.kind != b.kind:
                 raise Unsupported('list + list of different kinds')
-            return V(a.kind, z3.Concat(a.term, b.term))
+            return V(a.kind, ListOps(a.kind).concat(a.term, b.term))
         if isinstance(a.kind, KList) and op == 'Mult':
+            lo = ListOps(a.kind)
             n = self.concrete_int(self.as_int(b, st))
             if n is not None and n <= 8:
-                t = z3.Empty(a.kind.sort())
+                t = lo.empty()
                 for _ in range(n):
-                    t = z3.Concat(t, a.term)
+                    t = lo.concat(t, a.term)
                 return V(a.kind, t)
-            # [x] * n with symbolic n: fresh sequence with quantified definition
+            # [x] * n with symbolic n: fresh list with quantified definition
             cnt = self.as_int(b, st)
             s = fresh(a.kind, 'rep')
-            ln = z3.Length(a.term)
-            self.fact(st, z3.Length(s.term) == z3.If(cnt > 0, cnt * ln, 0))
-            if z3.is_app_of(a.term, z3.Z3_OP_SEQ_UNIT):
+            ln = z3.simplify(lo.len(a.term))
+            if z3.is_int_value(ln) and ln.as_long() == 1:
+                self.fact(st, lo.len(s.term) == z3.If(cnt > 0, cnt, 0))
                 j = z3.Int(fresh_name('j'))
-                self.fact(st, z3.ForAll([j], z3.Implies(z3.And(j >= 0, j < z3.Length(s.term)),
-                                                        s.term[j] == a.term[0]),
-                                        patterns=[s.term[j]]))
+                self.fact(st, Vm.forall([j], z3.Implies(z3.And(j >= 0, j < lo.len(s.term)),
+                                                        lo.at(s.term, j) == z3.simplify(lo.at(a.term, 0))),
+                                        patterns=[lo.at(s.term, j)]))
                 return s
             raise Unsupported('list * symbolic int for non-unit list')
         if a.kind == KSetInt and b.kind == KSetInt:
@@ -1601,13 +1646,16 @@ class Engine:
                 if static_real or True:
                     raise Unsupported(f'{op} on non-integers')
             self.require(st, bI != 0, 'ZeroDivisionError', op)
+            if not z3.is_int_value(z3.simplify(bI)):
+                # symbolic divisor: a == b*q + r with the sign rule of Python's floor division
+                # (product form; div/mod terms with a symbolic divisor are opaque to the solver)
+                q, r = self.divmod_witness(aI, bI, st)
+                return IntV(r if op == 'Mod' else q)
             # python floor semantics: z3 div/mod are euclidean (remainder >= 0)
-            q = z3.If(bI > 0, aI / bI, -((-aI) / (-bI))) if False else None
             pm = aI % bI                      # z3: 0 <= pm < |b|
             pymod = z3.If(z3.And(bI < 0, pm != 0), pm + bI, pm)
             if op == 'Mod':
-                return IntV(z3.simplify(pymod) if z3.is_int_value(bI) else pymod)
-            pydiv = z3.If(z3.And(bI < 0, pm != 0), aI / bI - 1, aI / bI) if False else None
+                return IntV(pymod)
             # floor(a/b): (a - pymod) / b exactly
             return IntV((aI - pymod) / bI)
         if op == 'Pow':
@@ -1623,6 +1671,59 @@ class Engine:
                 return result(ti if aI is not None else None, tr)
             raise Unsupported('general power')
         raise Unsupported(f'binary operator {op}')
+
+    def divmod_witness(self, a, b, st):
+        """Python floor division / modulo with a symbolic divisor: uninterpreted pydiv/pymod with the
+        defining axiom a == b*pydiv(a,b) + pymod(a,b), 0 <= pymod < b (sign of b).  Closed uses get a
+        ground instance of the axiom; uses under a binder enable the quantified axiom."""
+        I = z3.IntSort()
+        if 'pydiv' not in self.uf_cache:
+            self.uf_cache['pydiv'] = z3.Function('pydiv', I, I, I)
+            self.uf_cache['pymod'] = z3.Function('pymod', I, I, I)
+            self.assumptions.add('x // y and x % y with symbolic y are characterised by x == y*q + r with 0 <= r < y (sign of y)')
+        dv, md = self.uf_cache['pydiv'], self.uf_cache['pymod']
+
+        def ax(x, y):
+            q, r = dv(x, y), md(x, y)
+            return z3.Implies(y != 0, z3.And(
+                x == y * q + r,
+                z3.Or(z3.And(y > 0, r >= 0, r < y), z3.And(y < 0, r <= 0, r > y))))
+        if self.binders:
+            if 'divmod_axiom' not in self.uf_cache:
+                x, y = z3.Ints('dx dy')
+                self.uf_cache['divmod_axiom'] = True
+                self.facts.append(z3.ForAll([x, y], ax(x, y), patterns=[dv(x, y)]))
+                self.facts.append(z3.ForAll([x, y], ax(x, y), patterns=[md(x, y)]))
+        else:
+            key = ('divmod', a.get_id(), b.get_id())
+            if key not in self.uf_cache:
+                self.uf_cache[key] = True
+                self.facts.append(ax(a, b))
+        return dv(a, b), md(a, b)
+
+    def rangeset(self):
+        """Canonical term for frozenset(range(a, b, s)) with witness-form membership axioms."""
+        if 'rangeset' not in self.uf_cache:
+            I = z3.IntSort()
+            rs = z3.Function('rangeset', I, I, I, Vm.SetIntS)
+            rw = z3.Function('rangewit', I, I, I, I, I)
+            pt = z3.Function('rangept', I, I, I, I)
+            a, b, s_, r, k = z3.Ints('ra rb rs rr rk')
+            self.uf_cache['rangeset'] = rs
+            self.uf_cache['rangept'] = pt
+            self.uf_cache['rangewit'] = rw
+            self.facts.append(Vm.forall([a, b, s_, r], z3.Implies(
+                z3.And(z3.Select(rs(a, b, s_), r), s_ > 0),
+                z3.And(rw(a, b, s_, r) >= 0, r == a + rw(a, b, s_, r) * s_, r < b, r >= a)),
+                patterns=[z3.Select(rs(a, b, s_), r)]))
+            self.facts.append(Vm.forall([a, s_, k], pt(a, s_, k) == a + k * s_, patterns=[pt(a, s_, k)]))
+            self.facts.append(Vm.forall([a, b, s_, k], z3.Implies(
+                z3.And(k >= 0, pt(a, s_, k) < b, s_ > 0), z3.Select(rs(a, b, s_), pt(a, s_, k))),
+                patterns=[z3.MultiPattern(rs(a, b, s_), pt(a, s_, k))]))
+            self.facts.append(Vm.forall([a, b, r], z3.Select(rs(a, b, 1), r) == z3.And(a <= r, r < b),
+                                        patterns=[z3.Select(rs(a, b, 1), r)]))
+            self.assumptions.add('frozenset(range(a,b,s)) is the set {a + k*s | k >= 0, a + k*s < b} (witness-form axioms)')
+        return self.uf_cache['rangeset']
 
     def fop(self, op, a, b):
         """Real-valued arithmetic on floats; mode R = exact reals, mode U = uninterpreted."""
@@ -1691,6 +1792,8 @@ class Engine:
         if ka == kb:
             if isinstance(ka, KDict):
                 return self.B.dict_equal(self, st, a, b)
+            if isinstance(ka, KList):
+                return ListOps(ka).eq(a.term, b.term)
             return a.term == b.term
         if isinstance(ka, KTuple) and isinstance(kb, KTuple):
             ia, ib = tuple_items(a), tuple_items(b)
@@ -1699,9 +1802,9 @@ class Engine:
             return z3.And(*[self.equal(x, y, st) for x, y in zip(ia, ib)])
         if isinstance(ka, KList) and isinstance(kb, KList):
             if a.meta == 'empty':
-                return z3.Length(b.term) == 0
+                return ListOps(kb).len(b.term) == 0
             if b.meta == 'empty':
-                return z3.Length(a.term) == 0
+                return ListOps(ka).len(a.term) == 0
         if isinstance(ka, KDict) and isinstance(kb, KDict):
             if b.meta == 'emptydict':
                 return DictOps(ka).n(a.term) == 0
@@ -1721,7 +1824,7 @@ class Engine:
             return z3.IsMember(self.as_int(x, st), cont.term)
         if isinstance(k, KList):
             xx = coerce(x, k.elem)
-            return z3.Contains(cont.term, z3.Unit(xx.term))
+            return ListOps(k).contains(cont.term, xx.term)
         if isinstance(k, KTuple):
             return z3.Or(*[self.equal(i, x, st) for i in tuple_items(cont)])
         r = self.B.contains(self, st, cont, x)
@@ -1770,7 +1873,9 @@ class Engine:
                 raise SpecError('mutation in spec')
             if not isinstance(e.func, ast.Attribute):
                 raise Unsupported('mutation through non-attribute call')
-            self.write_back(e.func.value, res.meta.new, st)
+            if isinstance(e.func.value, (ast.Name, ast.Attribute, ast.Subscript)):
+                self.write_back(e.func.value, res.meta.new, st)
+            # else: the receiver is a temporary; the mutated container is dropped
             return res.meta.result
         return res
 
@@ -1838,7 +1943,7 @@ class Engine:
             fid = fn.term
         else:
             self.require(st, z3.BoolVal(False), 'TypeError', 'object is not callable')
-            return fresh(KDyn)
+            return self.fresh(KDyn)
         dargs = [to_dyn(a).term for a in args]
         name = f'apply{len(dargs)}'
         if name not in self.uf_cache:
@@ -1979,6 +2084,8 @@ class Engine:
             res = fresh(c.result, 'res') if c.result is not None else NONE
             self.assume_wellformed(st, res)
             for cl in c.ensures:
+                if cl.bounded:
+                    continue      # unproved clauses are never assumed at call sites
                 r = self.eval_spec(cl.node, st, pre, result=res)
                 self.fact(st, self.truth(r))
             return res
